@@ -91,6 +91,47 @@ def do_replay(path):
     return 1 if rep else 0
 
 
+def run_seeded_mutants(prop):
+    """Thorough tier: every stored seeded change that breaks this property is applied to a
+    scratch copy of /repo (outside /repo and /verif, removed afterwards) and the quick check
+    is run against that copy; it must report a violation."""
+    import shutil
+    import subprocess
+    import tempfile
+    out = []
+    sd = os.path.join(core.VERIF, "seeded")
+    if not os.path.isdir(sd):
+        return out
+    for name in sorted(os.listdir(sd)):
+        mp = os.path.join(sd, name, "meta.json")
+        pp = os.path.join(sd, name, "patch.diff")
+        if not (os.path.exists(mp) and os.path.exists(pp)):
+            continue
+        meta = json.load(open(mp))
+        if prop != meta.get("property") and prop not in meta.get("also_breaks", []):
+            continue
+        scratch = tempfile.mkdtemp(prefix="vm_", dir=os.environ.get("VERIF_SCRATCH", "/var/tmp"))
+        try:
+            subprocess.run(["rsync", "-a", "--exclude", "_build", "--exclude", ".git", core.REPO + "/", scratch + "/"], check=True)
+            r = subprocess.run(["git", "apply", "--unsafe-paths", "--directory", scratch, pp], capture_output=True, text=True, cwd="/")
+            if r.returncode != 0:
+                r = subprocess.run(["patch", "-p1", "-d", scratch, "-i", pp], capture_output=True, text=True)
+            if r.returncode != 0:
+                out.append({"id": name, "killed": False, "tail": "patch does not apply: " + (r.stdout + r.stderr)[-300:]})
+                continue
+            env = dict(os.environ)
+            env["VERIF_REPO"] = scratch
+            env["VERIF_IN_MUTANT"] = "1"
+            r = subprocess.run([os.path.join(core.VERIF, "check"), prop, "--tier", "quick", "--no-evidence"],
+                               capture_output=True, text=True, env=env)
+            viol = [l for l in r.stdout.split("\n") if l.startswith("VIOLATION")]
+            out.append({"id": name, "killed": r.returncode == 1 and bool(viol), "exit": r.returncode,
+                        "violations": len(viol), "tail": r.stdout[-600:]})
+        finally:
+            shutil.rmtree(scratch, ignore_errors=True)
+    return out
+
+
 def main(argv):
     ap = argparse.ArgumentParser()
     ap.add_argument("prop", nargs="?")
@@ -216,6 +257,13 @@ def main(argv):
             print("TOOLING: unit=%s %s" % (u["name"], r["reason"][:1500]))
         if rc == 0:
             rc = 2
+    mutants = []
+    if tier == "thorough" and not a.unit and rc == 0 and os.environ.get("VERIF_IN_MUTANT") != "1":
+        mutants = run_seeded_mutants(prop)
+        for m in mutants:
+            if not m["killed"]:
+                print("TOOLING: seeded change %s (breaks %s) is NOT detected by this check: %s" % (m["id"], prop, m["tail"][-300:]))
+                rc = 2
     wall = time.time() - t0
     if not a.no_evidence and not a.unit:
         checker = "goto-cc <harness including the real /repo .c> | goto-instrument --dfcc <entry> --enforce-contract <fn> [--replace-call-with-contract g] [--loop-contracts-file L --apply-loop-contracts] | cbmc --json-ui " + " ".join(core.DEFAULT_CBMC_FLAGS) + " --unwind N --unwinding-assertions (see units[].)"
@@ -242,6 +290,9 @@ def main(argv):
                 "known_findings_hit": [{"tag": k.get("tag"), "what": k["what"]} for k, u, o in known_hits],
                 "tooling_errors": [{"unit": u["name"], "reason": r["reason"][:300]} for u, r in tooling],
                 "tool_versions": core.tv(),
+                "seeded_mutants": mutants,
+                "mutants_killed": sum(1 for m in mutants if m["killed"]),
+                "mutants_total": len(mutants),
             },
             "assumptions": TRUSTED_COMMON + sorted(assumptions),
             "wall_s": round(wall, 2),
